@@ -233,8 +233,8 @@ def inline_helpers(mod: Module, fn: FuncNode, cls: T.Optional[str], exclude: T.I
     return fn
 
 
-def inline_test_locals(fn: FuncNode) -> FuncNode:
-    fn = copy.deepcopy(fn)
+def inline_test_locals(fn: FuncNode, inplace: bool = False) -> FuncNode:
+    fn = fn if inplace else copy.deepcopy(fn)
     stores: T.Dict[str, int] = {}
     for n in walk_no_nested(fn):
         if isinstance(n, ast.Name) and isinstance(n.ctx, (ast.Store, ast.Del)):
@@ -326,11 +326,11 @@ def _single_defs(fn: FuncNode) -> T.Dict[str, ast.AST]:
     return out
 
 
-def unroll_const_loops(fn: FuncNode) -> FuncNode:
+def unroll_const_loops(fn: FuncNode, inplace: bool = False) -> FuncNode:
     """`for a, b in T:` where T is (a single-definition local bound to) a tuple/list display of equally long tuple
     displays, or `for a in (x, y, z):`, with a body free of break/continue/else: the body is repeated once per
     element with the loop variables replaced by the element expressions (kind A4/B5 of the catalogue)."""
-    fn = copy.deepcopy(fn)
+    fn = fn if inplace else copy.deepcopy(fn)
     defs = _single_defs(fn)
 
     def elements(it: ast.AST) -> T.Optional[T.List[ast.AST]]:
@@ -451,9 +451,9 @@ def specialise(fn: FuncNode, assign: ast.stmt, values: T.Dict[str, T.Any]) -> Fu
     return new
 
 
-def ifexp_assign_to_if(fn: FuncNode) -> FuncNode:
+def ifexp_assign_to_if(fn: FuncNode, inplace: bool = False) -> FuncNode:
     """`x = A if c else B` (also `return A if c else B`) -> if c: x = A else: x = B   (catalogue C4)."""
-    fn = copy.deepcopy(fn)
+    fn = fn if inplace else copy.deepcopy(fn)
 
     def conv(st: ast.stmt) -> T.Optional[T.List[ast.stmt]]:
         if isinstance(st, ast.Assign) and isinstance(st.value, ast.IfExp):
@@ -494,9 +494,9 @@ def ifexp_assign_to_if(fn: FuncNode) -> FuncNode:
     return fn
 
 
-def search_loop_to_any(fn: FuncNode) -> FuncNode:
+def search_loop_to_any(fn: FuncNode, inplace: bool = False) -> FuncNode:
     """`flag = False; for x in it: if cond: flag = True; break` -> `flag = any(cond for x in it)`   (catalogue D2)."""
-    fn = copy.deepcopy(fn)
+    fn = fn if inplace else copy.deepcopy(fn)
 
     def walk_block(stmts: T.List[ast.stmt]) -> T.List[ast.stmt]:
         res: T.List[ast.stmt] = []
@@ -532,9 +532,9 @@ def norm_name(e: ast.AST) -> T.Optional[str]:
     return e.id if isinstance(e, ast.Name) else None
 
 
-def index_loop_to_direct(fn: FuncNode) -> FuncNode:
+def index_loop_to_direct(fn: FuncNode, inplace: bool = False) -> FuncNode:
     """`for k in range(len(xs)): v = xs[k]; ...` (k not used otherwise) -> `for v in xs: ...`   (catalogue D1)."""
-    fn = copy.deepcopy(fn)
+    fn = fn if inplace else copy.deepcopy(fn)
     for lp in [n for n in ast.walk(fn) if isinstance(n, ast.For)]:
         it = lp.iter
         if not (isinstance(lp.target, ast.Name) and isinstance(it, ast.Call) and isinstance(it.func, ast.Name) and it.func.id == 'range' and len(it.args) == 1
